@@ -6,6 +6,7 @@ import datetime
 import os
 import logging
 import warnings
+from copy import deepcopy
 from typing import Dict, Union, Optional, Tuple, TYPE_CHECKING
 
 if TYPE_CHECKING:
@@ -200,9 +201,14 @@ class AquaCropModel:
         # get _weather data
         self.weather_df = read_weather_inputs(self._clock_struct, self.weather_df)
 
+        # the crop calendar is computed (and, with SwitchGDD, converted to thermal time)
+        # in place: do that on a private copy so that the crop object the user passed in
+        # keeps its configured parameters for a re-run or for another model
+        self._crop = deepcopy(self.crop)
+
         # read model params
         self._clock_struct, self._param_struct = read_model_parameters(
-            self._clock_struct, self.soil, self.crop, self.weather_df
+            self._clock_struct, self.soil, self._crop, self.weather_df
         )
 
         # read irrigation management
@@ -228,7 +234,7 @@ class AquaCropModel:
 
         # read, calculate inital conditions
         self._param_struct, self._init_cond = read_model_initial_conditions(
-            self._param_struct, self._clock_struct, self.initial_water_content, self.crop
+            self._param_struct, self._clock_struct, self.initial_water_content, self._crop
         )
 
         self._param_struct = create_soil_profile(self._param_struct)
@@ -346,7 +352,7 @@ class AquaCropModel:
 
         # Update time step
         clock_struct, _init_cond, param_struct = update_time(
-            clock_struct, new_cond, param_struct, self._weather, self.crop
+            clock_struct, new_cond, param_struct, self._weather, self._crop
         )
 
         # Create  _outputsdataframes when model is finished
